@@ -1142,7 +1142,7 @@ ec_point_proj_fpx_pre_dbl_mult_precompute_affine(size_t wnd_bits __unused,
 		return (0);
 	BN_RET_ON_ERR(ec_point_proj_init(&tm, curve->m));
 	BN_RET_ON_ERR(ec_point_proj_import_affine(&tm, point, curve));
-	for (i = 1; i < curve->m; i ++) {
+	for (i = 1; i < MAX(curve->m, bn_calc_bits(&curve->n)); i ++) {
 		BN_RET_ON_ERR(ec_point_proj_add(&tm, &tm, curve)); /* point *= 2 */
 		/* Do some additional calcs for z = 1. */
 		BN_RET_ON_ERR(ec_point_init(&mult_data->pt_arr[i], curve->m));
@@ -1154,7 +1154,7 @@ ec_point_proj_fpx_pre_dbl_mult_precompute_affine(size_t wnd_bits __unused,
 	BN_RET_ON_ERR(ec_point_proj_import_affine(&mult_data->pt_arr[0], point, curve));
 	if (0 != ec_point_is_at_infinity(point)) /* R←(1,1,0) */
 		return (0);
-	for (i = 1; i < curve->m; i ++) {
+	for (i = 1; i < MAX(curve->m, bn_calc_bits(&curve->n)); i ++) {
 		BN_RET_ON_ERR(ec_point_proj_init(&mult_data->pt_arr[i], curve->m));
 		BN_RET_ON_ERR(ec_point_proj_assign(&mult_data->pt_arr[i],
 		    &mult_data->pt_arr[(i - 1)]));
@@ -2025,7 +2025,7 @@ ec_point_affine_fpx_pre_dbl_mult_precompute(size_t wnd_bits __unused,
 	BN_RET_ON_ERR(ec_point_assign(&mult_data->pt_arr[0], point));
 	if (0 != ec_point_is_at_infinity(point)) /* R←(1,1,0) */
 		return (0);
-	for (i = 1; i < curve->m; i ++) {
+	for (i = 1; i < MAX(curve->m, bn_calc_bits(&curve->n)); i ++) {
 		BN_RET_ON_ERR(ec_point_init(&mult_data->pt_arr[i], curve->m));
 		BN_RET_ON_ERR(ec_point_assign(&mult_data->pt_arr[i],
 		    &mult_data->pt_arr[(i - 1)]));
